@@ -174,6 +174,51 @@ def check_spec(spec: NetSpec, label, st: Stats, plan):
             for (vlabel, val), g, r in zip(allv, got, ref):
                 r2 = clamp_next({k: r[k] for k in state_keys}, opts)
                 compare(spec, g, r2, f"{sym} {sorted(opts)}", vlabel, dict(case, engine=sym), problems, st, f"C11/{sym}/{osig}")
+    # histories: the same network objects stepped with one option set and then with another (engine-created
+    # symbols); the second step must behave exactly like that step on a fresh network
+    if plan.get("hist"):
+        hsets = [frozenset()] + [frozenset([o]) for o in OPTS] + [frozenset(OPTS)]
+        allv = specials
+        for sym in plan["hist_sym"]:
+            fresh = {}
+            for o2 in hsets:
+                F, built, eng = cs_compile(spec, sym, P, opts={o: True for o in o2}, compact=0)
+                fresh[o2] = Compiled(F, built).eval_many([v for _, v in allv])
+                st.inc("transitions", 2)
+            for o1 in hsets:
+                for o2 in hsets:
+                    if o1 == o2:
+                        continue
+                    st.inc("transitions", 3)
+                    st.inc("histories")
+                    case = {"spec": spec.describe(), "config": label, "P": P, "opts": sorted(o2), "first_opts": sorted(o1),
+                            "engine": sym, "hist": True}
+                    try:
+                        from ..spec import build as _build
+                        b = _build(spec)
+                        eng = env.casadi_engine(sym)
+                        b.net.step(engine=eng, **P, **{o: True for o in o1})
+                        b.net.step(engine=eng, **P, **{o: True for o in o2})
+                        got = Compiled(eng.to_function(b.net, compact=0), b).eval_many([v for _, v in allv])
+                    except Exception as e:  # noqa: BLE001
+                        problems.append((f"C11/exception/{exc_site(e)}/{type(e).__name__}", f"{sym} step{sorted(o1)};step{sorted(o2)}: "
+                                         f"{exc_text(e)}", case))
+                        continue
+                    st.inc("executions", len(allv))
+                    done = False
+                    for (vlabel, val), g, r in zip(allv, got, fresh[o2]):
+                        for k in state_keys:
+                            for j, e in enumerate(r[k]):
+                                if not same(g[k][j], e):
+                                    problems.append((f"C11/{sym}/history/{k[1]}", f"{sym}: after step{sorted(o1)} then step{sorted(o2)} "
+                                                     f"next {k[1]}[{j}] of {k[0]} = {float(g[k][j])!r}; the second step alone gives "
+                                                     f"{float(e)!r} at {vlabel}", case))
+                                    done = True
+                                    break
+                            if done:
+                                break
+                        if done:
+                            break
     return problems
 
 
@@ -197,12 +242,16 @@ def plans(tier, seed):
     if tier == "quick":
         a = [(lab, s) for _, lab, s in all_specs(3, 3, 1, pal)]
         a0 = [(lab, s) for _, lab, s in all_specs(3, 3, 0, pal)]
-        jobs = [({"pset": 0, "d": 1, "optsets": option_sets("singles"), "cs_sym": ["SX"], "bases": (0,)}, a),
-                ({"pset": 0, "d": 1, "optsets": option_sets("pairs"), "cs_sym": ["SX"], "bases": (1,)}, a0),
-                ({"pset": 0, "d": 0, "optsets": option_sets("singles"), "cs_sym": ["MX"]}, a0)]
-        bounds = {"shapes": "(n,m)<=(3,3): c<=1 with each single option and all six; base+uniform configurations with all "
-                            "sets of <=2 options + all six (22), SX; singles + all six on MX", "value_deviation": 1,
-                  "palette": pal}
+        jobs = [({"pset": 0, "d": 0, "optsets": option_sets("singles")[-1:] + option_sets("singles")[:2], "cs_sym": ["SX"]}, a),
+                ({"pset": 0, "d": 1, "optsets": option_sets("singles"), "cs_sym": ["SX"], "bases": (0,)}, a0),
+                ({"pset": 0, "d": 0, "optsets": option_sets("pairs"), "cs_sym": ["SX"]}, a0),
+                ({"pset": 0, "d": 0, "optsets": option_sets("singles"), "cs_sym": ["MX"]}, a0),
+                ({"pset": 0, "d": 0, "optsets": [], "cs_sym": [], "hist": True, "hist_sym": ["SX", "MX"]},
+                 [(f"harness:{k}", s) for k, s in harness_specs(pal).items()])]
+        bounds = {"shapes": "(n,m)<=(3,3): c<=1 with all six options and two single options on the special vectors; base+uniform "
+                            "configurations with every single option and all six on single excursions (SX), all sets of <=2 "
+                            "options (22) and MX singles on the special vectors; harness list: all ordered pairs of 8 option sets "
+                            "on the same objects (SX, MX)", "value_deviation": 1, "palette": pal}
     else:
         a = [(lab, s) for _, lab, s in all_specs(3, 4, 1, pal)]
         b = [(lab, s) for _, lab, s in all_specs(4, 4, 0, pal) if s.n == 4]
@@ -210,7 +259,9 @@ def plans(tier, seed):
         jobs = [({"pset": 0, "d": 1, "optsets": option_sets("pairs"), "cs_sym": ["SX", "MX"]}, a + b),
                 ({"pset": 1, "d": 2, "optsets": option_sets("all"), "cs_sym": ["SX", "MX"], "dense": True}, h),
                 ({"pset": 2, "d": 0, "optsets": option_sets("all"), "cs_sym": ["SX"]},
-                 [(lab, s) for _, lab, s in all_specs(3, 3, 0, pal)])]
+                 [(lab, s) for _, lab, s in all_specs(3, 3, 0, pal)]),
+                ({"pset": 0, "d": 0, "optsets": [], "cs_sym": [], "hist": True, "hist_sym": ["SX", "MX"]},
+                 h + [(lab, s) for _, lab, s in all_specs(3, 2, 0, pal)])]
         bounds = {"shapes": "(3,4) c<=1 + 4-node (4,4): <=2 options + all six; harness list and (3,3) base configs: all 63 "
                             "non-empty option sets (harness with pair excursions)", "palette": pal}
     return jobs, bounds
